@@ -22,6 +22,10 @@ for name in sorted(idx):
         "caught_by": e["caught_by"],
         "round": e.get("round", 1),
     }
+    if e.get("strengthened"):
+        meta["check_strengthened_because"] = e["strengthened"]
+    if e.get("note"):
+        meta["note"] = e["note"]
     if e.get("initially_missed"):
         meta["initially_missed_because"] = e["initially_missed"]
     json.dump(meta, open(os.path.join(d, "meta.json"), "w"), indent=1)
